@@ -101,6 +101,8 @@ pub struct Aux {
     /// wide history (more than 6 replicas): subjects concentrate edits on one hot key / member so that many
     /// actors meet on the same element
     pub wide: bool,
+    /// big-alphabet Map subject: nested sets draw from 8 members instead of 2
+    pub big: bool,
 }
 impl Aux {
     pub fn fresh(&mut self) -> u32 {
@@ -150,6 +152,8 @@ pub trait Subject: Sized + 'static {
     const MERGE: bool;
     /// weakest delivery discipline under which the documentation promises convergence
     const NEEDS: Disc;
+    /// share (%) of long histories this subject wants (see PlanCfg::long_share)
+    const LONG: u32 = 4;
     fn init() -> Self::St;
     fn apply(s: &mut Self::St, op: Self::Op);
     fn merge(_s: &mut Self::St, _o: Self::St) {
